@@ -310,6 +310,63 @@ def run(ctx: Ctx) -> None:
                 i = next((i for i, (a, b) in enumerate(zip(mn, after)) if a != b), min(len(mn), len(after)))
                 ctx.disagree("quantisation_backend_graph", {**key, "node": i}, mn[i] if i < len(mn) else None,
                              after[i] if i < len(after) else None, THMS)
+        # the model of Python call binding vs the live signatures: random call shapes against the six introspectable
+        # functions (inspect.signature(...).bind) and the two builtins (does a real call raise TypeError)
+        import inspect
+        from unit_scaling.transforms import _simulate_format as sf_
+        live = {"U.linear": U.linear, "U.sdpa": U.scaled_dot_product_attention, "Q.linear": sf_._quantised_linear,
+                "Q.u_linear": sf_._quantised_u_linear, "Q.sdpa": sf_._quantised_scaled_dot_product_attention,
+                "Q.u_sdpa": sf_._quantised_u_scaled_dot_product_attention}
+        builtin_params = {"F.linear": ["input", "weight", "bias"],
+                          "F.sdpa": ["query", "key", "value", "attn_mask", "dropout_p", "is_causal", "scale", "enable_gqa"]}
+        tq = torch.randn(2, 3, 4)
+        vals = {"input": torch.randn(3, 4), "weight": torch.randn(5, 4), "bias": torch.randn(5), "query": tq, "key": tq, "value": tq,
+                "attn_mask": None, "dropout_p": 0.0, "is_causal": False, "scale": None, "enable_gqa": False}
+        breqs, bcases = [], []
+        for tname in list(live) + list(builtin_params):
+            names = list(inspect.signature(live[tname]).parameters) if tname in live else builtin_params[tname]
+            names = [n_ for n_ in names if n_ != "kwargs"]
+            for _ in range(12 if quick else 200):
+                nargs = rng.randint(0, len(names) + 1)
+                pool = names + ["bogus", "is_causal", "mult"]
+                kws = sorted(set(rng.sample(pool, rng.randint(0, min(3, len(pool))))))
+                breqs.append({"k": "bind", "target": tname, "nargs": nargs, "kw": kws})
+                bcases.append((tname, nargs, kws, names))
+        for (tname, nargs, kws, names), r in zip(bcases, driver.ask(breqs)):
+            bkey = {"bind": tname, "nargs": nargs, "kw": kws}
+            ctx.count(bkey, bucket="call-binding")
+            args = [f"a{i}" for i in range(nargs)]
+            kwargs = {k_: f"k:{k_}" for k_ in kws}
+            if tname in live:
+                sig = inspect.signature(live[tname])
+                try:
+                    ba = sig.bind(*args, **kwargs)
+                    ba.apply_defaults()
+                    bound = []
+                    for pn, v in ba.arguments.items():
+                        if sig.parameters[pn].kind is inspect.Parameter.VAR_KEYWORD:
+                            bound += [[k_, v_] for k_, v_ in v.items()]
+                        else:
+                            bound.append([pn, v if isinstance(v, str) and (v.startswith("a") or v.startswith("k:")) else repr(v)])
+                    want = {"ok": True, "bound": bound}
+                except TypeError:
+                    want = {"ok": False}
+                got = {"ok": r.get("ok"), **({"bound": r.get("bound")} if r.get("ok") else {})}
+                if got != want:
+                    ctx.disagree("call_binding", bkey, got, want, ["USProofs.C15.bindCall_ok", "USProofs.C15.bindCall_inv"])
+            else:
+                fn = F.linear if tname == "F.linear" else F.scaled_dot_product_attention
+                a_ = [vals[n_] for n_ in names[:nargs]] + [0] * max(0, nargs - len(names))
+                k_ = {k2: vals.get(k2, 0) for k2 in kws}
+                try:
+                    fn(*a_, **k_)
+                    ok_ = True
+                except TypeError:
+                    ok_ = False
+                except Exception:
+                    ok_ = True       # bound, failed later for another reason
+                if bool(r.get("ok")) != ok_:
+                    ctx.disagree("call_binding_builtin", bkey, r.get("ok"), ok_, ["USProofs.C15.linear2_binds", "USProofs.C15.sdpa_binds"])
         # the model's replacement map vs the live one
         from unit_scaling.transforms import _simulate_format as sf
         live = sorted((fg.target_name(k), fg.target_name(v)) for k, v in sf._replacement_map.items())
